@@ -255,3 +255,151 @@ func contentDigest(s string) string {
 	h := sha256.Sum256([]byte(s))
 	return fmt.Sprintf("%s...(%d bytes, sha256 %x)", s[:60], len(s), h[:8])
 }
+
+// ---- width sweep: the BFS alphabets use 2-3 path symbols, so a branch never has more than three
+// children and most of the 16 child slots are never used. Here every PAIR of the 16 symbols, every
+// 15-subset and the full set appear at one path position (the others fixed), i.e. every child slot
+// and every pair of slots of a branch at depth 0..3 is exercised, then one path is deleted again.
+
+type widthCase struct {
+	Pos  int    `json:"pos"`
+	Syms string `json:"symbols"`
+	Kind int    `json:"kind"`
+}
+
+func (c widthCase) paths() []string {
+	var out []string
+	for _, s := range c.Syms {
+		p := []byte("0a0a")
+		p[c.Pos] = byte(s)
+		out = append(out, string(p))
+	}
+	return out
+}
+
+func (c widthCase) String() string {
+	return fmt.Sprintf("paths 0a0a with position %d taking the symbols %q, store %v", c.Pos, c.Syms, StoreKind(c.Kind))
+}
+
+func runWidthCase(c widthCase, version int64, extra extraOracle) (fail string) {
+	defer func() {
+		if r := recover(); r != nil {
+			fail = clip(fmt.Sprintf("panic: %v", r))
+		}
+	}()
+	paths := c.paths()
+	w := NewWorld(StoreKind(c.Kind), version)
+	defer w.Close()
+	step := func(o Op) string {
+		if f := w.Apply(o); f != "" {
+			return fmt.Sprintf("%v: %s", o, f)
+		}
+		if f := w.Observe(paths); f != "" {
+			return fmt.Sprintf("after %v: %s", o, f)
+		}
+		if extra != nil {
+			if f := extra(w); f != "" {
+				return fmt.Sprintf("after %v: %s", o, f)
+			}
+		}
+		return ""
+	}
+	for i, p := range paths {
+		o := Op{K: 'I', P: p, V: fmt.Sprintf("v%d", i)}
+		if i < len(paths)-1 {
+			// judged once all are in, and after every later step
+			if f := w.Apply(o); f != "" {
+				return fmt.Sprintf("%v: %s", o, f)
+			}
+			continue
+		}
+		if f := step(o); f != "" {
+			return f
+		}
+	}
+	if StoreKind(c.Kind) != Mem {
+		if f := step(Op{K: 'F'}); f != "" {
+			return f
+		}
+	}
+	// remove the last, the first and (if any) a middle one
+	for _, i := range []int{len(paths) - 1, 0, len(paths) / 2} {
+		if _, live := w.Model[paths[i]]; live {
+			if f := step(Op{K: 'D', P: paths[i]}); f != "" {
+				return f
+			}
+		}
+	}
+	return ""
+}
+
+func widthSweep(rep *rt.Report, name string, kinds []StoreKind, version int64, extra extraOracle) {
+	run := "width-sweep/" + name
+	const hexs = "0123456789abcdef"
+	if rp := rt.Replay; rp != nil {
+		if rp.Run != run {
+			return
+		}
+		c := widthCase{Pos: int(rp.Raw["pos"].(float64)), Syms: rp.Raw["symbols"].(string), Kind: int(rp.Raw["kind"].(float64))}
+		f1, f2 := runWidthCase(c, version, extra), runWidthCase(c, version, extra)
+		fmt.Printf("REPLAY %s %v\n", run, c)
+		if f1 != f2 {
+			rt.HarnessError("replay of %v is not deterministic: %q vs %q", c, f1, f2)
+		}
+		if f1 != "" {
+			rep.Violate(fmt.Sprintf("[%s] %v => %s", run, c, f1), nil)
+		}
+		return
+	}
+	var cases []widthCase
+	for pos := 0; pos < 4; pos++ {
+		for _, k := range kinds {
+			for i := 0; i < 16; i++ {
+				for j := i + 1; j < 16; j++ {
+					cases = append(cases, widthCase{pos, string([]byte{hexs[i], hexs[j]}), int(k)}, widthCase{pos, string([]byte{hexs[j], hexs[i]}), int(k)})
+				}
+				cases = append(cases, widthCase{pos, hexs[:i] + hexs[i+1:], int(k)})
+			}
+			cases = append(cases, widthCase{pos, hexs, int(k)}, widthCase{pos, "fedcba9876543210", int(k)}, widthCase{pos, "80c4a6e2917b3d5f", int(k)})
+		}
+	}
+	var next int64
+	var mu sync.Mutex
+	reported := map[string]bool{}
+	var wg sync.WaitGroup
+	for i := 0; i < rt.Workers(); i++ {
+		wg.Add(1)
+		go func() {
+			defer wg.Done()
+			for {
+				j := int(atomic.AddInt64(&next, 1)) - 1
+				if j >= len(cases) {
+					return
+				}
+				c := cases[j]
+				if f := runWidthCase(c, version, extra); f != "" {
+					key := fmt.Sprintf("%d/%d/%s", c.Pos, c.Kind, strings.SplitN(f, " ", 4)[0])
+					mu.Lock()
+					if !reported[key] {
+						reported[key] = true
+						rep.Violate(fmt.Sprintf("[%s] %v => %s", run, c, f), map[string]any{"run": run, "pos": c.Pos, "symbols": c.Syms, "kind": c.Kind})
+					} else {
+						rep.Add("violations_suppressed_duplicates", 1)
+					}
+					mu.Unlock()
+				}
+			}
+		}()
+	}
+	wg.Wait()
+	n := len(cases)
+	rep.Add("states", n)
+	rep.Add("transitions", 4*n)
+	rep.Add("traces_validated_against_impl", 4*n)
+	rep.Add("evaluations", 4*n)
+	rep.Add("distinct_nontrivial", n)
+	rep.Sub[run] = map[string]any{
+		"rule":  fmt.Sprintf("4-character paths differing in ONE position (0..3): every ordered pair of the 16 symbols, every 15-subset, the full set in three insertion orders, on stores %v; judged after the last insert, after save+reopen (layered stores) and after each of three deletes", kinds),
+		"cases": n,
+	}
+}
